@@ -208,7 +208,7 @@ fn run_step_with(boc: &Arc<BocData>, st: &Step, max_write: usize, hash_seed: u64
 }
 
 /// Dates in the last rows of every surviving cache-like file, read leniently by the harness.
-fn tail_dates(disk: &Disk) -> Vec<Date> {
+pub fn tail_dates(disk: &Disk) -> Vec<Date> {
     let mut out = vec![];
     for (name, data) in disk.list_files(CACHE_DIR) {
         if !name.contains("rates-") {
